@@ -49,6 +49,7 @@ struct Stats {
     oracle_failures: usize,
     disagreements: usize,
     cells: BTreeMap<String, usize>,
+    impl_only: usize,
 }
 
 fn arg<'a>(args: &'a [String], name: &str) -> Option<&'a str> {
@@ -126,7 +127,7 @@ fn parse_case_file(text: &str) -> Option<Case> {
     }
     let (fam, _) = read_string(text.as_bytes(), after_key(text, "family")?)?;
     let family: &'static str = Box::leak(fam.into_boxed_str());
-    Some(Case { family, lines: strings_after(text, "lines")?, aux: strings_after(text, "aux").unwrap_or_default() })
+    Some(Case { family, lines: strings_after(text, "lines")?, aux: strings_after(text, "aux").unwrap_or_default(), no_model: false })
 }
 
 /// rule for "non-trivial": the implementation's responses contain at least one result that is not
@@ -192,7 +193,9 @@ fn run_cases(
                 wk.started.store(t0.elapsed().as_millis() as u64 + 1, Ordering::Relaxed);
                 outs.push(implrun::run(l));
                 wk.started.store(0, Ordering::Relaxed);
-                all_lines.push(l.clone());
+                if !c.no_model {
+                    all_lines.push(l.clone());
+                }
             }
             impl_outs.push(outs);
         }
@@ -204,8 +207,17 @@ fn run_cases(
         }
         let mut k = 0;
         for (c, io) in chunk.iter().zip(impl_outs.iter()) {
-            let mo = &model_outs[k..k + c.lines.len()];
-            k += c.lines.len();
+            let own: Vec<String>;
+            let mo: &[String] = if c.no_model {
+                // implementation-only case: decided by the oracle alone
+                own = io.iter().map(|o| o.text.clone()).collect();
+                stats.impl_only += 1;
+                &own
+            } else {
+                let r = &model_outs[k..k + c.lines.len()];
+                k += c.lines.len();
+                r
+            };
             stats.cases += 1;
             stats.lines += c.lines.len();
             let key = fnv(c.lines.join("\n").as_bytes());
@@ -410,6 +422,7 @@ fn cmd_run(args: &[String]) -> i32 {
                 if total.samples.len() < 4 {
                     total.samples.extend(s.samples);
                 }
+                total.impl_only += s.impl_only;
                 total.oracle_failures += s.oracle_failures;
                 total.disagreements += s.disagreements;
                 fails.extend(f);
@@ -431,7 +444,7 @@ fn cmd_run(args: &[String]) -> i32 {
     let map_json = |m: &BTreeMap<String, usize>| format!("{{{}}}", m.iter().map(|(k, v)| format!("{}:{}", json_str(k), v)).collect::<Vec<_>>().join(","));
     let hist_json = format!("{{{}}}", total.len_hist.iter().map(|(k, v)| format!("\"<={}\":{}", k, v)).collect::<Vec<_>>().join(","));
     let json = format!(
-        "{{\"property\":{},\"tier\":{},\"seed\":{},\"cases\":{},\"lines\":{},\"distinct\":{},\"distinct_nontrivial\":{},\"families\":{},\"result_kinds\":{},\"model_decoder_cells\":{},\"request_length_hist\":{},\"samples\":[{}],\"oracle_failures\":{},\"model_disagreements\":{},\"failure\":{},\"wall_s\":{:.2}}}",
+        "{{\"property\":{},\"tier\":{},\"seed\":{},\"cases\":{},\"lines\":{},\"distinct\":{},\"distinct_nontrivial\":{},\"families\":{},\"result_kinds\":{},\"model_decoder_cells\":{},\"request_length_hist\":{},\"samples\":[{}],\"impl_only_cases\":{},\"oracle_failures\":{},\"model_disagreements\":{},\"failure\":{},\"wall_s\":{:.2}}}",
         json_str(prop),
         json_str(if tier.thorough { "thorough" } else { "quick" }),
         seed,
@@ -444,6 +457,7 @@ fn cmd_run(args: &[String]) -> i32 {
         map_json(&total.cells),
         hist_json,
         total.samples.join(","),
+        total.impl_only,
         total.oracle_failures,
         total.disagreements,
         reported.as_ref().map(failure_json).unwrap_or("null".into()),
